@@ -268,7 +268,7 @@ class Crate:
         if not ref:
             return
         cur = {f["path"]: f for f in self.fns if "::tests::" not in f["path"] and "::test::" not in f["path"] and f.get("body")}
-        gone = [p for p in ref if p not in cur and self._LT.sub("'_", p) not in {self._LT.sub("'_", q) for q in cur}]
+        gone = [p for p in ref if not p.startswith("__") and p not in cur and self._LT.sub("'_", p) not in {self._LT.sub("'_", q) for q in cur}]
         new = [p for p in cur if p not in ref and "{" not in p]
         if not gone or not new:
             return
@@ -286,13 +286,53 @@ class Crate:
                 self._old_to_new[g] = p
                 self._new_to_old[p] = g
 
+    def _canonicalise_moved_types(self):
+        """A struct / enum of the reference tree that is gone from its path while exactly one type of the same name exists at a path
+        the reference tree did not have was moved to another module: every occurrence of its new path (type texts, `adt` fields,
+        paths of its methods and impls) is rewritten to the reference path."""
+        self.moved_types = {}
+        ref = self._ref().get("__adts__") if isinstance(self._ref(), dict) else None
+        if not ref:
+            return
+        cur = {a["path"] for a in self.adts}
+        refset = set(ref)
+        for old in ref:
+            if old in cur or "::tests::" in old:
+                continue
+            name = old.rsplit("::", 1)[-1]
+            cand = [p for p in cur if p.rsplit("::", 1)[-1] == name and p not in refset and p.split("::")[0] == old.split("::")[0] and "::tests::" not in p]
+            if len(cand) == 1:
+                self.moved_types[cand[0]] = old
+        if not self.moved_types:
+            return
+        pats = [(re.compile(r"(?<![A-Za-z0-9_:])" + re.escape(new) + r"(?![A-Za-z0-9_])"), old) for new, old in self.moved_types.items()]
+
+        def sub(s):
+            for pat, old in pats:
+                if pat.pattern and old.rsplit("::", 1)[-1] in s:
+                    s = pat.sub(old, s)
+            return s
+
+        stack = [self.strs, self.fns, self.mir, self.adts, self.impls, self.statics]
+        while stack:
+            x = stack.pop()
+            it = x.items() if isinstance(x, dict) else enumerate(x)
+            for k, v in list(it):
+                if isinstance(v, str):
+                    if "::" in v:
+                        x[k] = sub(v)
+                elif isinstance(v, (dict, list)):
+                    stack.append(v)
+
     def _canonicalise_renames(self):
         """Present every function recognised as a rename / move of a reference-tree function under its reference path - in its own
         record, in every call / path node that names it and in the MIR call lists - so that rules, audit keys and known-finding keys
         written against the reference names keep matching. Source locations are untouched (reports point at the real code)."""
+        self._canonicalise_moved_types()
         self._match_renames()
         m = self._new_to_old
         self.renames = dict(m)
+        self.renames.update(self.moved_types)
         if not m:
             return
 
